@@ -20,6 +20,7 @@ func init() {
 			c.run("C17-R6", "SELECT-ARM/PAIR: bounded wait for the tunnel, fallback keeps the in-band writer", c17R6)
 			c.run("C17-S1", "shared with C13-R5: the tunnel pumps look up their relay per chunk (a finished transfer's tunnel cannot feed the next handshake), park first while handshaking, forward on their own direction", c13R5)
 			c.run("C17-R7", "GUARD-DOM: relay adoption gate", c17R7)
+			c.run("C17-R8", "LAUNCH: accept loops, greeting checks, the timed dial and the tunnel pumps are started with go", c17Launch)
 		})
 }
 
@@ -516,6 +517,22 @@ func c17R6(c *Ctx) {
 						agreed = true
 					}
 				}
+				// and from here on the answers go over the tunnel: no successful exit without the writer switched to the connection
+				hit, path := reachAvoid(st, func(in ssa.Instruction) bool {
+					r, isR := in.(*ssa.Return)
+					if !isR || len(r.Results) == 0 {
+						return false
+					}
+					return !c.definitelyNonNilErr(r.Results[len(r.Results)-1], in.Block(), nil)
+				}, func(in ssa.Instruction) bool {
+					s2, isS := in.(*ssa.Store)
+					if !isS {
+						return false
+					}
+					n2, _ := fieldAddrName(s2.Addr)
+					return n2 == "trzszTransfer.writer"
+				})
+				c.check(hit == nil, "tunnelConnected@recvAction/writer-switched", c.ipos(st), "once the tunnel is declared in use every successful exit has switched the writer to the connection", "the tunnel is declared in use but the function can succeed without switching the writer: the server answers in-band while the client ignores in-band bytes", c.pathStr(path)...)
 				c.check(isC && b && agreed, "tunnelConnected@recvAction", c.ipos(st), "the server uses the tunnel only when the client's action announces it", "the server decides on its own that the tunnel is in use (the client may have fallen back to in-band after its grace period)")
 			case "trzszTransfer.sendAction":
 				held := false
